@@ -10,7 +10,6 @@ NA = {
     "C04": "round-trip equality over all codes and sequences is value-level; its one structural fact (ANS state mask vs table size) is a memory-safety obligation checked under C02",
     "C12": "agreement of two numeric pipelines (and SIMD vs scalar) over all samples; no structural necessary condition a realistic regression would break",
     "C17": "byte equality of a re-encoded JPEG over all inputs is value-level throughout",
-    "C18": "round-trip of a compression format over all profiles is value-level; its size limits are instances of C01/R-LIMIT",
     "C19": "numerical tolerance statements over real-valued functions",
 }
 
@@ -115,6 +114,13 @@ CHECKS = {
              "Does not decide any numerical property of the kernels.",
         note="kernel families are recognised by name after stripping the architecture suffix",
         ref="DESIGN.md section 3 C16"),
+    "C18": dict(
+        technique="validation-check reconstruction from MIR against a reviewed table of the ICC stream decoder's consistency conditions",
+        text="Claimed narrowly: the rejection clause (inconsistent encodings are rejected with an error). 24 consistency conditions of "
+             "read_icc/decode_icc (sizes, offsets, command/tag codes, predictor parameters, available data, final length) exist as "
+             "compare->error checks with the reviewed bound. Does not decide byte-exactness of accepted profiles.",
+        note="table transcribed from the decoder and checked against ISO/IEC 18181-1 Annex on ICC encoding where the condition is explicit; intraprocedural",
+        ref="DESIGN.md section 8.6"),
     "C20": dict(
         technique="protocol-shape rules on MIR: who-may-write census, test-and-set shape, must-pass-through, guard liveness dataflow",
         text="Decides the structural safety argument of the render-handle protocol for every interleaving: exact writer/locker "
